@@ -47,6 +47,7 @@ type SpecParam struct {
 }
 
 type SpecFunc struct {
+	Rec    bool   // recursive: compiled to define-fun-rec with explicit heap parameters
 	Pkg    string // import path of declaring package
 	Name   string
 	Params []SpecParam
@@ -368,7 +369,7 @@ func (cs *ContractSet) parseFile(root, file string) error {
 			default:
 				return bad(c, "unknown loop clause %q", what)
 			}
-		case "spec":
+		case "spec", "rec":
 			// spec name(params) R = expr
 			op := strings.Index(rest, "(")
 			if op < 0 {
@@ -406,7 +407,7 @@ func (cs *ContractSet) parseFile(root, file string) error {
 			if err != nil {
 				return err
 			}
-			sf := &SpecFunc{Pkg: pkg, Name: name, Params: params, Result: resT, Body: e, Src: src, File: file, Line: c.line}
+			sf := &SpecFunc{Rec: kw == "rec", Pkg: pkg, Name: name, Params: params, Result: resT, Body: e, Src: src, File: file, Line: c.line}
 			cs.Specs[pkg+"."+name] = sf
 			cur = nil
 		case "lemma":
